@@ -136,11 +136,12 @@ func ReadAll(p textparse.Parser, o ReadOpts) (out []Entry, err error) {
 // HistKey renders the histogram of an entry layout-independently in the float domain
 // (an integer histogram and the equal float histogram give the same key).
 func (e *Entry) HistKey() string {
+	// the integer histogram first: consumers (scrape loop) use it whenever it is non-nil
 	switch {
-	case e.FH != nil:
-		return gen.FloatHistKey(e.FH)
 	case e.H != nil:
 		return gen.FloatHistKey(e.H.ToFloat(nil))
+	case e.FH != nil:
+		return gen.FloatHistKey(e.FH)
 	}
 	return "<no histogram>"
 }
